@@ -226,6 +226,11 @@ Theorem c19_parsed_args_distinct :
 Proof. exact parsed_args_NoDup. Qed.
 
 
+(* the order of the parse steps of the SOURCE (regenerated), which fixes the order in which ids are created *)
+From WV Require Gen.ParseSkeleton Proofs.ParsePinned.
+Theorem c19_parse_source_skeleton : WV.Gen.ParseSkeleton.parse_skeleton = WV.Proofs.ParsePinned.expected_parse_skeleton.
+Proof. exact WV.Proofs.ParsePinned.parse_skeleton_pinned. Qed.
+
 Print Assumptions c19_parse_ids_are_positions.
 Print Assumptions c19_parse_types.
 Print Assumptions c19_parse_tables.
@@ -248,3 +253,4 @@ Print Assumptions c19_emit_local_map_is_numbering.
 Print Assumptions c19_emit_local_map_lookup_is_position.
 Print Assumptions c19_parsed_local_maps_bijective.
 Print Assumptions c19_parsed_args_distinct.
+Print Assumptions c19_parse_source_skeleton.
